@@ -16,7 +16,8 @@ for name in sorted(os.listdir(os.path.join(HERE, 'seeded'))):
     r = subprocess.run([sys.executable, os.path.join(HERE, 'tools',
                                                      'try_mutant.py'),
                         os.path.join(d, 'patch.diff'), '--props',
-                        meta['property']], capture_output=True, text=True)
+                        meta.get('detected_by', meta['property'])],
+                       capture_output=True, text=True)
     sigs = [l.strip() for l in r.stdout.splitlines()
             if l.strip().startswith('signature:')]
     ok = r.returncode == 0
